@@ -170,11 +170,13 @@ def check_case(case, rec, lib, sp=None):
             rec.violation("sign/not-idempotent", "signing again with the same key changed the envelope", case)
             return
     if sp is not None:
-        for ev in sp.events:
-            rec.count("probe_sign_events")
-            if ev["data"] != refdata:
-                rec.violation("primitive-probe/sign_signable/signed-bytes-differ-from-reference",
-                              "bytes handed to the signing primitive are not the canonical payload bytes", case)
+        rec.count("probe_sign_events", len(sp.events))
+        if sp.events and not any(ev["data"] == refdata for ev in sp.events):
+            # the canonical payload bytes never reached the signing primitive (extra primitive calls over other data are only tallied)
+            rec.violation("primitive-probe/sign_signable/signed-bytes-differ-from-reference",
+                          "bytes handed to the signing primitive are not the canonical payload bytes", case)
+        elif any(ev["data"] != refdata for ev in sp.events):
+            rec.count("hint_probe_extra_sign_events_over_other_data")
         sp.events.clear()
     # order independence
     perms = list(itertools.permutations(range(len(ks)))) if len(ks) <= 4 else [
